@@ -381,6 +381,32 @@ PROPS = {
         ],
         "assumptions": ["known finding int-overflow-panic (probe line)"],
     },
+    "C20": {
+        "required_theorems": ["c20_chain_1200_as_documented", "c20_chain_9600_as_documented", "c20_nrzi",
+                              "c20_nrzi_any_start", "c20_polarity_irrelevant"],
+        "runs": [
+            {"sub": "e2e", "quick": ["--seed", "{seed}", "--cases", 60, "--probes", 1],
+             "thorough": ["--seed", "{seed}", "--cases", 6000, "--probes", 1], "timeout": 40000},
+        ],
+        "rule": "generated clean transmissions: 1..4 AX.25 frames (payload 10..120 bytes, random or stuffing-heavy 0xFF/0x7E/0x3F/"
+                "0x00), preamble of 20..100 flags, 2..6 flags between frames, trailing flags; Bell-202 AFSK (continuous phase, "
+                "1200/2200 Hz) at 44100/48000/50000 Hz into the 1200-baud chain of examples/ax25-1200-rx.rs; G3RUH-scrambled "
+                "NRZI 2-FSK (+-3 kHz) at 50000/100000 Hz into the 9600-baud chain with the ZeroCrossing block as clock "
+                "recovery; random start phase, random sub-sample symbol timing, random initial line level and scrambler "
+                "seed; single- and multi-threaded runner. Delivered packets must equal the payloads exactly, in order. The bit "
+                "stream at the slicer output is also compared with the transmitted levels (front-end hypothesis) to classify "
+                "a failure as front end or digital. distinct = distinct transmission.",
+        "trusted_base": GLOBAL_TB + [
+            "tools/extract.py compares the block order and parameters of the two example sources with the harness copy "
+            "(lean/RR/Gen/E2e.lean, theorems c20_chain_*): a change of an example re-opens the proof",
+            "PARTIAL BY NATURE: the float front end (filters, demodulator, clock recovery) is validated on generated signals, "
+            "not proved; IEEE-754, libm, rustfft trusted",
+            "the harness modulators are idealised (rectangular FSK / continuous-phase AFSK, no noise)",
+        ],
+        "assumptions": ["the transmission continues (flags) for at least one FFT batch after the last frame, as a real "
+                        "signal does: the block filters only emit whole batches",
+                        "known finding e2e-9600-symbolsync-slips (probe line)"],
+    },
 }
 
 MANIFEST_TEXT = {
@@ -594,6 +620,20 @@ MANIFEST_TEXT = {
         "note": "Known finding (not repaired): integer AddConst/MultiplyConst/Add panic on overflow. Six crash defects were "
                 "repaired by fix: commits (AuDecode offsets, Midpointer, Wpcr, LFSR asserts, HDLC len-2, TcpSource, Delay).",
         "technique": "Lean 4 totality proofs for modelled units + hostile-input runs (exhaustive small bursts) on the real code",
+    },
+    "C20": {
+        "text": "PARTIAL BY NATURE. Lean 4 theorems for the digital side: the harness copy of both receive chains equals what "
+                "the example sources say now (generated definitions); NRZI decoding inverts NRZI encoding for every bit string "
+                "from any initial level (only the first bit can differ) and is insensitive to a polarity flip; together with "
+                "C10/C13 this is the bit-level pipeline. The analog front end enters as the explicit hypothesis FrontEnd and "
+                "is validated, not proved: generated Bell-202 and G3RUH transmissions at all supported sample rates with "
+                "arbitrary phase and symbol timing must be decoded exactly, on both runners.",
+        "design_ref": "DESIGN.md section 2, C20",
+        "note": "Known finding: the 9600 example as written uses SymbolSync, which slips symbols on clean NRZ data at "
+                "non-integer samples/symbol below about 10.5 (50000/9600 = 5.208); the check uses the ZeroCrossing block for "
+                "the 9600 chain (the property names zero-crossing clock recovery) and keeps the example's variant as a probe. "
+                "The descrambler inversion theorem and the composition with the HDLC round trip are not yet mechanised.",
+        "technique": "Lean 4 proofs for the digital back end over translator-checked chain definitions + end-to-end validation on generated signals",
     },
 }
 
